@@ -39,7 +39,30 @@ Definition mkans_ (s c r o : option string) (p : rproof) : answer :=
   mkans (mkts (hexf_of_str s) (hexf_of_str c) (hexf_of_str r) (hexf_of_str o)) p.
 
 (* issuerData.credentialStatus after JSON decoding *)
+(* JSON values of a status object as written by the harness *)
+Inductive rjv := RJNull | RJStr (s : string) | RJNum (n : limbs) | RJObj (o : list (string * rjv)) | RJBad.
+Fixpoint jv_of (fuel : nat) (v : rjv) : jv :=
+  match fuel with
+  | O => JBad
+  | S f =>
+      match v with
+      | RJNull => JNull | RJStr s => JStr s | RJNum n => JNum (zl n) | RJBad => JBad
+      | RJObj o => JObj (map (fun kv => (fst kv, jv_of f (snd kv))) o)
+      end
+  end.
+Fixpoint rjv_nums (fuel : nat) (v : rjv) : list Z :=
+  match fuel with
+  | O => []
+  | S f =>
+      match v with
+      | RJNum n => [zl n]
+      | RJObj o => flat_map (fun kv => rjv_nums f (snd kv)) o
+      | _ => []
+      end
+  end.
+
 Inductive rstatus :=
+| SJson (o : list (string * rjv))             (* the status object as it stands in the proof *)
 | SRaw (ty : string) (n : limbs)              (* object whose revocationNonce is the integer literal n *)
 | SObj (parsed : option (string * limbs))     (* any other object, as the library decodes it *)
 | SOther.
@@ -132,6 +155,13 @@ Fixpoint look1 {V} (k : Z) (t : list (Z * V)) : option V :=
    the model consults the status entry *)
 Definition status_of (T : tables) (r : rstatus) : raw_status :=
   match r with
+  | SJson o =>
+      (* every integer literal of the object must be in the round-trip table (else: oracle miss) *)
+      if forallb (fun n => match look1 n (t_jrt T) with Some _ => true | None => false end)
+                 (rjv_nums 8 (RJObj o))
+      then status_of_json 8 (fun n => match look1 n (t_jrt T) with Some x => x | None => None end)
+                          (map (fun kv => (fst kv, jv_of 8 (snd kv))) o)
+      else RSPtr None
   | SRaw ty n =>
       match look1 (zl n) (t_jrt T) with
       | Some o => status_after_json (fun _ => o) ty (zl n)
